@@ -219,7 +219,9 @@ impl<Octs: AsRef<[u8]> + ?Sized> Txt<Octs> {
 
     /// Returns the content if it consists of a single character string.
     pub fn as_flat_slice(&self) -> Option<&[u8]> {
-        if usize::from(self.0.as_ref()[0]) == self.0.as_ref().len() - 1 {
+        // Parsed data can be empty.
+        let first = *self.0.as_ref().first()?;
+        if usize::from(first) == self.0.as_ref().len() - 1 {
             Some(&self.0.as_ref()[1..])
         } else {
             None
